@@ -21,6 +21,15 @@ var (
 	HeapLimit = uint64(6 << 30)
 )
 
+// Cleanups run when a worker exits (normally or through the watchdog).
+var Cleanups []func()
+
+func runCleanups() {
+	for _, f := range Cleanups {
+		f()
+	}
+}
+
 // Guard marks the start of a case for the watchdog; returns false if the case is on the
 // skip list (it hung or exhausted memory in a previous attempt of this shard).
 func (c *Ctx) Guard(key string) bool {
@@ -76,6 +85,9 @@ func WorkerMain(id, tier string, shard, nshards int, seed int64, out string) int
 	if ch.HangLimit > 0 {
 		HangLimit = ch.HangLimit
 	}
+	if ch.HeapLimit > 0 {
+		HeapLimit = ch.HeapLimit
+	}
 	c := NewCtx(id, tier, shard, nshards, seed, budget)
 	c.partialPath, c.lastFlush = out+".partial", time.Now()
 	write := func() {
@@ -88,7 +100,7 @@ func WorkerMain(id, tier string, shard, nshards int, seed int64, out string) int
 	go func() {
 		var ms runtime.MemStats
 		for {
-			time.Sleep(200 * time.Millisecond)
+			time.Sleep(50 * time.Millisecond)
 			st := curStart.Load()
 			hang := st != 0 && time.Since(time.Unix(0, st)) > HangLimit
 			runtime.ReadMemStats(&ms)
@@ -100,12 +112,14 @@ func WorkerMain(id, tier string, shard, nshards int, seed int64, out string) int
 					why = "heap"
 				}
 				os.WriteFile(out+".skip", []byte(why+"\n"+k+"\n"), 0o644)
+				runCleanups()
 				os.Exit(4)
 			}
 		}
 	}()
 	ch.Run(c)
 	write()
+	runCleanups()
 	return 0
 }
 
